@@ -6,20 +6,37 @@ import ast
 
 from ..cfg import cfg_of
 from ..model import AnalysisError, call_name, calls_in, dotted, norm
-from .. import callgraph, rules
+from .. import callgraph, inline, rules
 from .. import conds as cnd
 
 
 def _thread_creations(fn):
-    """[(field, target attr, Assign stmt)] for `self.<field> = threading.Thread(target=self.<m>, ...)`."""
+    """[(field, target attr, creating Assign stmt)] for `self.<field> = threading.Thread(target=self.<m>, ...)`, also when
+    the thread object goes through a local first (`thread = threading.Thread(...); ...; self.<field> = thread`, the
+    shape an inlined start-helper has): the creation that reaches the store is the last one that dominates it."""
     out = []
-    for st in rules.func_stmts(fn):
+    cfg = cfg_of(fn)
+    local = []  # (node, name, target)
+    for n in cfg.real_nodes():
+        st = n.ast
         if isinstance(st, ast.Assign) and isinstance(st.value, ast.Call) and (call_name(st.value) or "") == "threading.Thread":
             tgt = next((k.value for k in st.value.keywords if k.arg == "target"), None)
             for t in st.targets:
                 d = dotted(t)
                 if d and d.startswith("self."):
                     out.append((d, dotted(tgt) if tgt is not None else None, st))
+                elif isinstance(t, ast.Name):
+                    local.append((n, t.id, dotted(tgt) if tgt is not None else None))
+    for n in cfg.real_nodes():
+        st = n.ast
+        if isinstance(st, ast.Assign) and isinstance(st.value, ast.Name) and any((dotted(t) or "").startswith("self.") for t in st.targets):
+            cands = [c for c in local if c[1] == st.value.id and cfg.dominates(c[0], n)]
+            if cands:
+                c = max(cands, key=lambda c: c[0].id)
+                for t in st.targets:
+                    d = dotted(t)
+                    if d and d.startswith("self."):
+                        out.append((d, c[2], c[0].ast))
     return out
 
 
@@ -34,8 +51,9 @@ def check_dispatcher(ctx, rule: str, wakeups=True, consumers=True, reconnect=Non
     stop = repo.method("ProtocolDispatcher", "stop", inherited=False)
     ctx.touch(start)
     ctx.touch(stop)
-    scfg = cfg_of(start.node)
-    creations = _thread_creations(start.node)
+    start_fn = inline.expanded(ctx, start)  # thread creation moved into a private helper is still thread creation
+    scfg = cfg_of(start_fn)
+    creations = _thread_creations(start_fn)
     ctx.require(len(creations) >= 2, "ProtocolDispatcher.start: fewer than two thread creations found")
     stop_names = [call_name(c) or "" for c in calls_in(stop.node)]
     stop_assigns = {dotted(t): norm(st.value) for st in rules.func_stmts(stop.node) if isinstance(st, ast.Assign) for t in st.targets}
@@ -111,6 +129,15 @@ def check_dispatcher(ctx, rule: str, wakeups=True, consumers=True, reconnect=Non
         gets = [n for n in cfg.real_nodes() if any(c in ("self._dispatch_queue.get", "self._dispatch_queue.get_nowait") for c in n.call_names())]
         K = next(n for n in cfg.real_nodes() if any(c == "self._dispatcher_target" for c in n.call_names()))
         heads = [n for n in cfg.nodes if n.kind == "test" and n.label == "while" and "_dispatch_queue" in norm(n.ast)]
+        if gets and not heads:
+            # no drain loop: after one block the thread must not go back to sleep while blocks may still be queued
+            waits_ = [n for n in cfg.real_nodes() if any(c == "self._dispatcher_thread_trigger.wait" for c in n.call_names())]
+            empt = [n for n in cfg.nodes if (n.kind == "test" and "_dispatch_queue" in norm(n.ast)) or (n.kind == "handler" and "Empty" in n.text())]
+            drains = bool(waits_) and not cfg.path_exists(K, waits_[0], avoid=empt)
+            ctx.ob(rule, disp.qualname, drains, "after a wake-up the queue is drained before the thread waits again" if drains else
+                   "one wake-up handles one block: the trigger is an Event (set() does not count), so blocks queued while a handler runs stay in the queue until unrelated traffic arrives - the last one for ever",
+                   key="one-at-a-time", where=disp.where)
+            return
         ctx.require(len(gets) == 1 and len(heads) == 1, "dispatcher drain loop not recognised")
         c1 = cfg.loop_iteration_counts(heads[0], lambda n: n in gets, no_exc=True)
         c2 = cfg.loop_iteration_counts(heads[0], lambda n: n is K, no_exc=True)
